@@ -7,16 +7,6 @@ open Pk Pk.SMap
 
 /-! ## which zips are in `large` after a complete pack -/
 
-theorem get_putLarge_cases (s : St) (zr : Ref) (z : Zip) (k : Ref) (z' : Zip)
-    (h : get (putLarge s zr z).large k = some z') : get s.large k = some z' ∨ k = zr := by
-  unfold putLarge at h
-  split at h
-  · exact Or.inl h
-  · simp only [get_ins] at h
-    by_cases e : k = zr
-    · exact Or.inr e
-    · simp only [e, if_false] at h; exact Or.inl h
-
 theorem packLoop_large {C : Ref → Bytes} (env : PackEnv) (nameOK : Bool) (tbl : List Chunk) (whole : Ref) (wsz : Nat)
     (s0 : St) :
     ∀ (fuel : Nat) (s : St) (bud : Budget) (remain : List Ref) (n wbw : Nat) (trunc : Option Ref)
